@@ -73,3 +73,14 @@ End Parse.
 Definition xml_ws (c : char) : bool := N.eqb c 32 || N.eqb c 9 || N.eqb c 13 || N.eqb c 10.
 Definition ascii_digit (c : char) : option N := if N.leb 48 c && N.leb c 57 then Some (c - 48)%N else None.
 Definition xpath_number (s : str) : xnum := parse_number xml_ws ascii_digit s.
+
+(* ---- number -> string for the naturals (string() of an integral number: its decimal numeral, no leading zeros) *)
+Fixpoint dec_digits (fuel : nat) (n : N) (acc : str) : str :=
+  match fuel with
+  | O => acc
+  | S k => let acc' := (48 + N.modulo n 10)%N :: acc in
+           if N.ltb n 10 then acc' else dec_digits k (N.div n 10) acc'
+  end.
+Definition N_to_dec (n : N) : str := dec_digits (S (N.to_nat (N.size n))) n [].
+Definition STR_true : str := [116;114;117;101]%N.
+Definition STR_false : str := [102;97;108;115;101]%N.
